@@ -369,20 +369,336 @@ Proof.
   assert (Hpe : pc' <> mk_piece (flip c) KING).
   { intros E. rewrite E, mkp_colour_king in P2. now apply F2. }
   destruct (two_kings_simple b (brd q) c f t pc' K k0 Hat Hc Hf Ht K1 O1 K2 K3 O2 O3 HKf HKt Hcol_t Hpe P4) as [C1 C2].
-  apply legal_pos_intro; try assumption.
-  - apply (upd_codes b (brd q) _ Hat); [exact (wf_codes p Hw)|].
+  apply legal_pos_intro; [exact R1| | | |exact R2|exact R3|exact R4| | |exact Hep].
+  - apply (upd_codes b (brd q) [(t, pc'); (f, 0)] Hat); [exact (wf_codes p Hw)|].
     intros s v [E|[E|[]]]; injection E as <- <-; [exact P3|now left].
   - destruct (flip_cases c Hc) as [[E1 E2]|[E1 E2]]; [rewrite <- E1; exact C1|rewrite <- E2; exact C2].
   - destruct (flip_cases c Hc) as [[E1 E2]|[E1 E2]]; [rewrite <- E2; exact C2|rewrite <- E1; exact C1].
-  - apply (upd_pawn_ranks b (brd q) _ Hat).
+  - apply (upd_pawn_ranks b (brd q) [(t, pc'); (f, 0)] Hat).
     + intros s Hs Hp. rewrite forallb_forall in Hpr. specialize (Hpr s (proj2 (in_squares64 s) Hs)).
       unfold piece_at in Hpr. fold b in Hpr. rewrite Hp in Hpr. clear - Hpr. lia.
     + intros s v [E|[E|[]]] Hp; injection E as <- <-; [now apply Hrank|]. cbn in Hp. discriminate.
-  - apply (upd_rights_ok p q _ f t Hcr Hf Ht).
+  - apply (upd_rights_ok p q [(t, pc'); (f, 0)] f t Hcr Hf Ht).
     + unfold q. now rewrite make_cr, Ef, Et.
     + exact Hat.
     + intros kf kt rf bit em _ _ A2 A3 A4 A5. cbn [fsts map fst In]. split; intros [E|[E|[]]]; congruence.
     + exact Hro.
 Qed.
 
+(** *** en passant *)
+Lemma ep_victim_facts e : ep p = e -> e < 64 ->
+  8 <= e < 56 /\ ep_victim (stm p) e < 64 /\
+  at_ (brd p) (ep_victim (stm p) e) = mk_piece (flip (stm p)) PAWN /\
+  rank_of e <> 0 /\ rank_of e <> 7.
+Proof.
+  intros Ee He. pose proof (legal_pos_inv p Hlp) as (_ & _ & _ & _ & _ & _ & _ & _ & _ & Hep).
+  pose proof Mc as Hc. unfold ep_ok in Hep. rewrite Ee in Hep.
+  replace (e =? 64) with false in Hep by lia.
+  repeat (apply andb_true_iff in Hep as [Hep ?]).
+  assert (Hv : step (fwd (flip (stm p))) e = Some (ep_victim (stm p) e) /\ 8 <= e < 56 /\ rank_of e <> 0 /\ rank_of e <> 7).
+  { clear - Hep Hc He.
+    assert (G : forallb (fun c => forallb (fun e =>
+              negb (rank_of e =? (if c =? WHITE then 5 else 2)) ||
+              (match step (fwd (flip c)) e with Some v => v =? ep_victim c e | None => false end &&
+               (8 <=? e) && (e <? 56) && negb (rank_of e =? 0) && negb (rank_of e =? 7))) squares64) [0;1] = true)
+      by (vm_compute; reflexivity).
+    rewrite forallb_forall in G. assert (Hin : In (stm p) [0;1]) by (cbn; lia).
+    pose proof (forall_squares _ (G _ Hin) e He) as G'. cbv beta in G'. rewrite Hep in G'. cbn [negb orb] in G'.
+    repeat (apply andb_true_iff in G' as [G' ?]).
+    destruct (step (fwd (flip (stm p))) e); [|discriminate]. apply N.eqb_eq in G'. subst. repeat split; lia. }
+  destruct Hv as (Hv & R1 & R2 & R3). rewrite Hv in H0. unfold piece_at in H0. apply N.eqb_eq in H0.
+  repeat split; try assumption; try lia. apply step_lt in Hv. exact Hv.
+Qed.
+
+Lemma ep_legal s e : s < 64 -> at_ (brd p) s = mk_piece (stm p) PAWN ->
+  m = mkmv s e ENPASSANT 3 -> In e (pawn_attack_targets (stm p) s) -> e = ep p -> at_ (brd p) e = 0 ->
+  legal_pos (make p m) = true.
+Proof.
+  intros Hs Hats Em Hin Ee He0.
+  pose proof (legal_pos_inv p Hlp) as (_ & _ & _ & _ & _ & Hcr & _ & Hpr & Hro & _).
+  destruct legal_rest as (R1 & R2 & R3 & R4).
+  pose proof Mlf as L. pose proof Mc as Hc. destruct (flip_facts _ Hc) as (F1 & F2 & F3).
+  pose proof Mw as Hw. pose proof Mlen as Hlen.
+  assert (He : e < 64) by now apply pawn_targets_lt in Hin.
+  destruct (ep_victim_facts e (eq_sym Ee) He) as (Hr & Hv & Hatv & Hr0 & Hr7).
+  set (b := brd p) in *. set (c := stm p) in *. set (q := make p m) in *.
+  set (K := king_sq b (flip c)) in *. set (vic := ep_victim c e) in *.
+  destruct (lf_own_king p K L) as [O1 O2]. pose proof (lf_own_uniq p K L) as O3. fold b c in O1, O2, O3.
+  set (k0 := king_sq b c) in *.
+  pose proof (lf_Klt p K L) as K1. pose proof (lf_Kat p K L) as K2. pose proof (lf_Kuniq p K L) as K3. fold b c in K2, K3.
+  set (ch := [(vic, 0); (e, at_ b s); (s, 0)]).
+  assert (Hat : forall a, a < 64 -> at_ (brd q) a = upd ch b a).
+  { intros a Ha. unfold q. rewrite Em.
+    rewrite (at_make_ep p (mkmv s e ENPASSANT 3) Hlen Hc Hs He Hr eq_refl Hin a). reflexivity. }
+  assert (Pawn_ne_king : forall x y, mk_piece x PAWN <> mk_piece y KING).
+  { intros x y E. apply mk_piece_inj in E; unfold PAWN, KING in *; lia. }
+  apply legal_pos_intro; [exact R1| | | |exact R2|exact R3|exact R4| | |].
+  - apply (upd_codes b (brd q) ch Hat); [exact (wf_codes p Hw)|].
+    intros x v [E|[E|[E|[]]]]; injection E as <- <-; [now left|rewrite Hats; apply valid_own_piece; [exact Hc|unfold PAWN; lia]|now left].
+  - (* white king *)
+    assert (G : forall x k, k < 64 -> at_ b k = mk_piece x KING ->
+                (forall y, y < 64 -> at_ b y = mk_piece x KING -> y = k) -> count_piece (brd q) (mk_piece x KING) = 1%nat).
+    { intros x k Hk Ak Uk. apply (upd_king_stays b (brd q) ch Hat _ k Hk Ak Uk).
+      - unfold ch. cbn [fsts map fst In]. intros [E|[E|[E|[]]]]; rewrite <- E in Ak.
+        + rewrite Hatv in Ak. now apply Pawn_ne_king in Ak.
+        + rewrite He0 in Ak. symmetry in Ak. now apply mkp_king_nz in Ak.
+        + rewrite Hats in Ak. now apply Pawn_ne_king in Ak.
+      - intros y v [E|[E|[E|[]]]] Ev; injection E as <- <-.
+        + symmetry in Ev. now apply mkp_king_nz in Ev.
+        + rewrite Hats in Ev. now apply Pawn_ne_king in Ev.
+        + symmetry in Ev. now apply mkp_king_nz in Ev. }
+    destruct (flip_cases c Hc) as [[E1 E2]|[E1 E2]]; [rewrite <- E1; now apply (G c k0)|rewrite <- E2; now apply (G (flip c) K)].
+  - assert (G : forall x k, k < 64 -> at_ b k = mk_piece x KING ->
+                (forall y, y < 64 -> at_ b y = mk_piece x KING -> y = k) -> count_piece (brd q) (mk_piece x KING) = 1%nat).
+    { intros x k Hk Ak Uk. apply (upd_king_stays b (brd q) ch Hat _ k Hk Ak Uk).
+      - unfold ch. cbn [fsts map fst In]. intros [E|[E|[E|[]]]]; rewrite <- E in Ak.
+        + rewrite Hatv in Ak. now apply Pawn_ne_king in Ak.
+        + rewrite He0 in Ak. symmetry in Ak. now apply mkp_king_nz in Ak.
+        + rewrite Hats in Ak. now apply Pawn_ne_king in Ak.
+      - intros y v [E|[E|[E|[]]]] Ev; injection E as <- <-.
+        + symmetry in Ev. now apply mkp_king_nz in Ev.
+        + rewrite Hats in Ev. now apply Pawn_ne_king in Ev.
+        + symmetry in Ev. now apply mkp_king_nz in Ev. }
+    destruct (flip_cases c Hc) as [[E1 E2]|[E1 E2]]; [rewrite <- E2; now apply (G (flip c) K)|rewrite <- E1; now apply (G c k0)].
+  - apply (upd_pawn_ranks b (brd q) ch Hat).
+    + intros x Hx Hp. rewrite forallb_forall in Hpr. specialize (Hpr x (proj2 (in_squares64 x) Hx)).
+      unfold piece_at in Hpr. fold b in Hpr. rewrite Hp in Hpr. clear - Hpr. lia.
+    + intros x v [E|[E|[E|[]]]] Hp; injection E as <- <-; [cbn in Hp; discriminate|now split|cbn in Hp; discriminate].
+  - apply (upd_rights_ok p q ch s e Hcr Hs He).
+    + unfold q. now rewrite make_cr, Em.
+    + exact Hat.
+    + intros kf kt rf bit em Hin' A1 A2 A3 A4 A5.
+      assert (Hpc : exists x, at_ b kf = mk_piece x KING /\ at_ b rf = mk_piece x ROOK).
+      { unfold rights_ok in Hro. apply andb_true_iff in Hro as [Hr1 Hr2]. rewrite forallb_forall in Hr1, Hr2.
+        apply in_app_or in Hin' as [Hi|Hi].
+        - specialize (Hr1 _ Hi). cbv beta iota in Hr1. apply N.eqb_neq in A1. rewrite A1 in Hr1. cbn [orb] in Hr1.
+          apply andb_true_iff in Hr1 as [X1 X2]. unfold is_piece in *. apply N.eqb_eq in X1, X2. now exists WHITE.
+        - specialize (Hr2 _ Hi). cbv beta iota in Hr2. apply N.eqb_neq in A1. rewrite A1 in Hr2. cbn [orb] in Hr2.
+          apply andb_true_iff in Hr2 as [X1 X2]. unfold is_piece in *. apply N.eqb_eq in X1, X2. now exists BLACK. }
+      destruct Hpc as [x [X1 X2]].
+      unfold ch. cbn [fsts map fst In]. split; intros [E|[E|[E|[]]]]; try congruence.
+      * rewrite <- E, Hatv in X1. now apply Pawn_ne_king in X1.
+      * rewrite <- E, Hatv in X2. apply mk_piece_inj in X2; unfold PAWN, ROOK in *; lia.
+    + exact Hro.
+  - apply ep_none. unfold q. rewrite make_ep_field, Em. cbn [mfrom mto].
+    destruct (pawn_step_facts c s Hc Hs) as (_ & _ & G3). destruct (G3 e Hin) as [_ G]. fold b. rewrite G.
+    now rewrite andb_false_r.
+Qed.
+
+(** *** castling *)
+Lemma castle_legal kf kt rf bit em : In (kf, kt, rf, bit, em) (castles (stm p)) ->
+  castle_ok p (kf, kt, rf, bit, em) = true -> m = mkmv kf kt CASTLING 3 -> legal_pos (make p m) = true.
+Proof.
+  intros Hin Hok Em.
+  pose proof (legal_pos_inv p Hlp) as (_ & _ & _ & _ & _ & Hcr & _ & Hpr & Hro & _).
+  destruct legal_rest as (R1 & R2 & R3 & R4).
+  pose proof Mlf as L. pose proof Mc as Hc. destruct (flip_facts _ Hc) as (F1 & F2 & F3).
+  pose proof Mw as Hw. pose proof Mlen as Hlen.
+  unfold castle_ok in Hok. repeat (apply andb_true_iff in Hok as [Hok ?]).
+  unfold is_piece in *.
+  match goal with X : (at_ (brd p) kf =? _) = true |- _ => apply N.eqb_eq in X; rename X into Akf end.
+  match goal with X : (at_ (brd p) rf =? _) = true |- _ => apply N.eqb_eq in X; rename X into Arf end.
+  match goal with X : forallb _ em = true |- _ => rename X into Hem end.
+  rewrite forallb_forall in Hem.
+  set (rt := snd (rook_castle_squares kt)).
+  assert (Hd : kf < 64 /\ kt < 64 /\ rf < 64 /\ rt < 64 /\ rook_castle_squares kt = (rf, rt) /\
+               In kt em /\ In rt em /\ kf <> kt /\ kt <> rf /\ kt <> rt /\ rf <> rt /\ kf <> rt /\ kf <> rf).
+  { subst rt. apply castles_in in Hin.
+    decompose [or] Hin; match goal with X : (_, _, _, _, _) = _ |- _ => injection X as -> -> -> -> -> end;
+      cbn; repeat split; try lia; auto. }
+  destruct Hd as (D1 & D2 & D3 & D4 & D5 & D6 & D7 & N1 & N2 & N3 & N4 & N5 & N6).
+  pose proof (Hem kt D6) as Akt. pose proof (Hem rt D7) as Art. apply N.eqb_eq in Akt, Art.
+  set (b := brd p) in *. set (c := stm p) in *. set (q := make p m) in *.
+  set (K := king_sq b (flip c)) in *.
+  pose proof (lf_own_uniq p K L) as O3. fold b c in O3.
+  pose proof (lf_Klt p K L) as K1. pose proof (lf_Kat p K L) as K2. pose proof (lf_Kuniq p K L) as K3. fold b c in K2, K3.
+  set (ch := [(rt, mk_piece c ROOK); (rf, 0); (kt, at_ b kf); (kf, 0)]).
+  assert (Hat : forall a, a < 64 -> at_ (brd q) a = upd ch b a).
+  { intros a Ha. unfold q. rewrite Em. rewrite (at_make_castle p kf kt rf rt Hlen D1 D2 D3 D4 D5). reflexivity. }
+  assert (Rook_ne_king : forall x y, mk_piece x ROOK <> mk_piece y KING).
+  { intros x y E. apply mk_piece_inj in E; unfold ROOK, KING in *; lia. }
+  apply legal_pos_intro; [exact R1| | | |exact R2|exact R3|exact R4| | |].
+  - apply (upd_codes b (brd q) ch Hat); [exact (wf_codes p Hw)|].
+    intros x v [E|[E|[E|[E|[]]]]]; injection E as <- <-;
+      [apply valid_own_piece; [exact Hc|unfold ROOK; lia]|now left|rewrite Akf; apply valid_own_piece; [exact Hc|unfold KING; lia]|now left].
+  - (* white king *)
+    assert (Gown : count_piece (brd q) (mk_piece c KING) = 1%nat).
+    { apply (upd_king_moves b (brd q) ch Hat _ kf kt D2).
+      - intros y Hy Ay. assert (E1 : y = king_sq b c) by now apply O3. assert (E2 : kf = king_sq b c) by now apply O3. congruence.
+      - unfold ch. cbn [fsts map fst In]. auto.
+      - unfold ch. cbn [upd]. replace (kt =? rt) with false by lia. replace (kt =? rf) with false by lia.
+        rewrite N.eqb_refl. exact Akf.
+      - intros y v [E|[E|[E|[E|[]]]]] Ev; injection E as <- <-; try reflexivity.
+        + now apply Rook_ne_king in Ev.
+        + symmetry in Ev. now apply mkp_king_nz in Ev.
+        + symmetry in Ev. now apply mkp_king_nz in Ev. }
+    assert (Gopp : count_piece (brd q) (mk_piece (flip c) KING) = 1%nat).
+    { apply (upd_king_stays b (brd q) ch Hat _ K K1 K2 K3).
+      - unfold ch. cbn [fsts map fst In]. intros [E|[E|[E|[E|[]]]]]; rewrite <- E in K2.
+        + rewrite Art in K2. symmetry in K2. now apply mkp_king_nz in K2.
+        + rewrite Arf in K2. now apply Rook_ne_king in K2.
+        + rewrite Akt in K2. symmetry in K2. now apply mkp_king_nz in K2.
+        + rewrite Akf in K2. apply mk_piece_inj in K2; [|unfold KING; lia|unfold KING; lia]. destruct K2 as [K2 _]. now apply F2.
+      - intros y v [E|[E|[E|[E|[]]]]] Ev; injection E as <- <-.
+        + now apply Rook_ne_king in Ev.
+        + symmetry in Ev. now apply mkp_king_nz in Ev.
+        + rewrite Akf in Ev. apply mk_piece_inj in Ev; [|unfold KING; lia|unfold KING; lia]. destruct Ev as [Ev _]. now apply F2.
+        + symmetry in Ev. now apply mkp_king_nz in Ev. }
+    destruct (flip_cases c Hc) as [[E1 E2]|[E1 E2]]; [rewrite <- E1; exact Gown|rewrite <- E2; exact Gopp].
+  - assert (Gown : count_piece (brd q) (mk_piece c KING) = 1%nat).
+    { apply (upd_king_moves b (brd q) ch Hat _ kf kt D2).
+      - intros y Hy Ay. assert (E1 : y = king_sq b c) by now apply O3. assert (E2 : kf = king_sq b c) by now apply O3. congruence.
+      - unfold ch. cbn [fsts map fst In]. auto.
+      - unfold ch. cbn [upd]. replace (kt =? rt) with false by lia. replace (kt =? rf) with false by lia.
+        rewrite N.eqb_refl. exact Akf.
+      - intros y v [E|[E|[E|[E|[]]]]] Ev; injection E as <- <-; try reflexivity.
+        + now apply Rook_ne_king in Ev.
+        + symmetry in Ev. now apply mkp_king_nz in Ev.
+        + symmetry in Ev. now apply mkp_king_nz in Ev. }
+    assert (Gopp : count_piece (brd q) (mk_piece (flip c) KING) = 1%nat).
+    { apply (upd_king_stays b (brd q) ch Hat _ K K1 K2 K3).
+      - unfold ch. cbn [fsts map fst In]. intros [E|[E|[E|[E|[]]]]]; rewrite <- E in K2.
+        + rewrite Art in K2. symmetry in K2. now apply mkp_king_nz in K2.
+        + rewrite Arf in K2. now apply Rook_ne_king in K2.
+        + rewrite Akt in K2. symmetry in K2. now apply mkp_king_nz in K2.
+        + rewrite Akf in K2. apply mk_piece_inj in K2; [|unfold KING; lia|unfold KING; lia]. destruct K2 as [K2 _]. now apply F2.
+      - intros y v [E|[E|[E|[E|[]]]]] Ev; injection E as <- <-.
+        + now apply Rook_ne_king in Ev.
+        + symmetry in Ev. now apply mkp_king_nz in Ev.
+        + rewrite Akf in Ev. apply mk_piece_inj in Ev; [|unfold KING; lia|unfold KING; lia]. destruct Ev as [Ev _]. now apply F2.
+        + symmetry in Ev. now apply mkp_king_nz in Ev. }
+    destruct (flip_cases c Hc) as [[E1 E2]|[E1 E2]]; [rewrite <- E2; exact Gopp|rewrite <- E1; exact Gown].
+  - apply (upd_pawn_ranks b (brd q) ch Hat).
+    + intros x Hx Hp. rewrite forallb_forall in Hpr. specialize (Hpr x (proj2 (in_squares64 x) Hx)).
+      unfold piece_at in Hpr. fold b in Hpr. rewrite Hp in Hpr. clear - Hpr. lia.
+    + intros x v [E|[E|[E|[E|[]]]]] Hp; injection E as <- <-; exfalso.
+      * rewrite mk_piece_type in Hp by (unfold ROOK; lia). discriminate.
+      * cbn in Hp. discriminate.
+      * rewrite Akf, mk_piece_type in Hp by (unfold KING; lia). discriminate.
+      * cbn in Hp. discriminate.
+  - apply (upd_rights_ok p q ch kf kt Hcr D1 D2).
+    + unfold q. now rewrite make_cr, Em.
+    + exact Hat.
+    + intros kf' kt' rf' bit' em' Hin' A1 A2 A3 A4 A5.
+      assert (Hpc : exists x, at_ b kf' = mk_piece x KING /\ at_ b rf' = mk_piece x ROOK /\ In (kf', kt', rf', bit', em') (castles x)).
+      { unfold rights_ok in Hro. apply andb_true_iff in Hro as [Hr1 Hr2]. rewrite forallb_forall in Hr1, Hr2.
+        apply in_app_or in Hin' as [Hi|Hi].
+        - specialize (Hr1 _ Hi). cbv beta iota in Hr1. apply N.eqb_neq in A1. rewrite A1 in Hr1. cbn [orb] in Hr1.
+          apply andb_true_iff in Hr1 as [X1 X2]. unfold is_piece in *. apply N.eqb_eq in X1, X2. now exists WHITE.
+        - specialize (Hr2 _ Hi). cbv beta iota in Hr2. apply N.eqb_neq in A1. rewrite A1 in Hr2. cbn [orb] in Hr2.
+          apply andb_true_iff in Hr2 as [X1 X2]. unfold is_piece in *. apply N.eqb_eq in X1, X2. now exists BLACK. }
+      destruct Hpc as [x [X1 [X2 X3]]].
+      unfold ch. cbn [fsts map fst In]. split; intros [E|[E|[E|[E|[]]]]]; try congruence.
+      * rewrite <- E, Art in X1. symmetry in X1. now apply mkp_king_nz in X1.
+      * rewrite <- E, Arf in X1. now apply Rook_ne_king in X1.
+      * rewrite <- E, Art in X2. symmetry in X2. apply mkp_nz in X2; [exact X2|unfold ROOK; lia].
+      * (* the same rook square: then the same colour, hence the same king square *)
+        rewrite <- E, Arf in X2. apply mk_piece_inj in X2; [|unfold ROOK; lia|unfold ROOK; lia]. destruct X2 as [X2 _].
+        subst x. apply A2. clear - Hin X3. unfold castles in Hin, X3.
+        destruct (c =? WHITE); cbn [In] in Hin, X3; destruct Hin as [H1|[H1|[]]], X3 as [H2|[H2|[]]];
+          injection H1 as <- <- <- <- <-; injection H2 as <- <- <- <- <-; reflexivity.
+    + exact Hro.
+  - apply ep_none. unfold q. rewrite make_ep_field, Em. cbn [mfrom mto]. fold b. rewrite Akf.
+    rewrite mk_piece_type by (unfold KING; lia). reflexivity.
+Qed.
+
+(** *** the en passant square after a double step *)
+Lemma ep_ok_double s t u : s < 64 -> at_ (brd p) s = mk_piece (stm p) PAWN ->
+  step (fwd (stm p)) s = Some t -> at_ (brd p) t = 0 -> rank_of s = start_rank (stm p) ->
+  step (fwd (stm p)) t = Some u -> at_ (brd p) u = 0 -> m = mkmv s u NORMAL 3 ->
+  ep_ok (make p m) = true.
+Proof.
+  intros Hs Hats E E0 Hr E2 Eu Em. pose proof Mc as Hc. pose proof Mlen as Hlen.
+  destruct (flip_facts _ Hc) as (F1 & F2 & F3).
+  destruct (pawn_step_facts _ s Hc Hs) as (_ & G2 & _). destruct (G2 t u E E2 Hr) as (_ & _ & Gm & Gr).
+  destruct (push_geom _ s t Hc Hs E) as (_ & Nts & _). destruct (double_geom _ s t u Hc Hs E E2) as (_ & Nut & Gd).
+  assert (Ht : t < 64) by now apply step_lt in E. assert (Hu : u < 64) by now apply step_lt in E2.
+  assert (Nus : u <> s).
+  { intros X. rewrite X in Gd. unfold zabs_diff in Gd. destruct (rank_of s <=? rank_of s); lia. }
+  assert (Hat : forall a, at_ (brd (make p m)) a = if a =? u then at_ (brd p) s else if a =? s then 0 else at_ (brd p) a).
+  { intros a. rewrite Em. rewrite (at_make_simple p (mkmv s u NORMAL 3) Hlen Hs Hu (or_introl eq_refl) a). reflexivity. }
+  assert (Eep : ep (make p m) = t).
+  { rewrite make_ep_field, Em. cbn [mfrom mto]. rewrite Hats, mk_piece_type by (unfold PAWN; lia).
+    rewrite N.eqb_refl, Gd. cbn [N.eqb Pos.eqb andb]. exact Gm. }
+  unfold ep_ok. rewrite Eep. replace (t =? 64) with false by lia.
+  rewrite make_stm. rewrite F3. unfold piece_at. rewrite E2.
+  assert (Eb : step (fwd (flip (stm p))) t = Some s).
+  { assert (Ho : opp (fwd (stm p)) = fwd (flip (stm p))).
+    { clear - Hc. assert (stm p = 0 \/ stm p = 1) as [-> | ->] by lia; reflexivity. }
+    rewrite <- Ho. now apply (step_opp _ s t Hs Ht). }
+  rewrite Eb. rewrite !Hat.
+  replace (t =? u) with false by lia. replace (t =? s) with false by lia. rewrite N.eqb_refl.
+  replace (s =? u) with false by lia. rewrite N.eqb_refl.
+  rewrite E0, Hats, Gr, !N.eqb_refl. reflexivity.
+Qed.
+
 End Make.
+
+Theorem make_preserves_legal_pos p m : legal_pos p = true -> In m (legal p) -> legal_pos (make p m) = true.
+Proof.
+  intros Hlp Hm. unfold legal in Hm. apply filter_In in Hm as [Hps His].
+  pose proof (legal_wfp p Hlp) as Hw. pose proof (wf_stm p Hw) as Hc.
+  pose proof (pseudo_shape p m Hw Hps) as Hsh.
+  destruct Hsh as [s t ty Hs Hty E Ht Hf|s m Hs E Hm|m Hm].
+  - (* officers and king *)
+    pose proof (spec_targets_lt _ _ _ _ Ht) as Ht64.
+    apply (simple_legal p _ Hlp Hps His s t ty (at_ (brd p) s)); try reflexivity; try assumption.
+    + unfold KING in *. lia.
+    + left. auto.
+    + unfold free_or_enemy in Hf. destruct (N.eqb_spec (at_ (brd p) t) 0) as [E0|E0]; [now left|right].
+      cbn [orb] in Hf. split; [exact E0|]. apply negb_true_iff, N.eqb_neq in Hf. exact Hf.
+    + intros Hp. rewrite E, mk_piece_type in Hp by (unfold KING in *; lia). unfold PAWN, KING in *. lia.
+    + apply ep_none. rewrite make_ep_field. cbn [mfrom]. rewrite E, mk_piece_type by (unfold KING in *; lia).
+      replace (ty =? PAWN) with false by (unfold PAWN, KING in *; lia). reflexivity.
+  - (* pawns *)
+    apply (proj1 (pawn_moves_pmove false p s _)) in Hm. destruct Hm as [k Hk].
+    pose proof (pawn_step_facts _ s Hc Hs) as (G1 & G2 & G3).
+    assert (Hlast : forall x, x <> home_rank (stm p) -> x <> last_rank (stm p) -> x <> 0 /\ x <> 7).
+    { intros x. clear - Hc. unfold home_rank, last_rank, WHITE. assert (stm p = 0 \/ stm p = 1) as [-> | ->] by lia; cbn; lia. }
+    assert (Hnp : forall pr, prom_piece pr -> type_of (mk_piece (stm p) pr) <> PAWN /\ 3 <= pr <= 6).
+    { intros pr [->|[->|[->| ->]]]; (split; [rewrite mk_piece_type by (vm_compute; reflexivity); discriminate|vm_compute; split; discriminate]). }
+    destruct Hk as [t E1 E0 Hr|t pr E1 E0 Hr Hpr|t u E1 E0 Es E2 Eu|t Ht Een Hr|t pr Ht Een Hr Hpr|t Ht Een Ee E0].
+    + assert (Ht64 : t < 64) by now apply step_lt in E1.
+      apply (simple_legal p _ Hlp Hps His s t PAWN (at_ (brd p) s)); try reflexivity; try assumption.
+      * unfold PAWN. lia.
+      * left. auto.
+      * now left.
+      * intros _. apply Hlast; [now apply G1|exact Hr].
+      * apply ep_none. rewrite make_ep_field. cbn [mfrom mto].
+        destruct (push_geom _ s t Hc Hs E1) as (_ & _ & Gd). rewrite Gd. now rewrite andb_false_r.
+    + assert (Ht64 : t < 64) by now apply step_lt in E1. destruct (Hnp pr Hpr) as [Hn1 Hn2].
+      apply (simple_legal p _ Hlp Hps His s t PAWN (mk_piece (stm p) pr)); try reflexivity; try assumption.
+      * unfold PAWN. lia.
+      * right. cbn [mtype mprom]. auto.
+      * now left.
+      * intros Hp. contradiction.
+      * apply ep_none. rewrite make_ep_field. cbn [mfrom mto].
+        destruct (push_geom _ s t Hc Hs E1) as (_ & _ & Gd). rewrite Gd. now rewrite andb_false_r.
+    + assert (Hu64 : u < 64) by now apply step_lt in E2.
+      destruct (G2 t u E1 E2 Es) as (Gh & Gl & _).
+      apply (simple_legal p _ Hlp Hps His s u PAWN (at_ (brd p) s)); try reflexivity; try assumption.
+      * unfold PAWN. lia.
+      * left. auto.
+      * now left.
+      * intros _. now apply Hlast.
+      * now apply (ep_ok_double p _ Hlp His s t u).
+    + assert (Ht64 : t < 64) by now apply pawn_targets_lt in Ht. destruct (G3 t Ht) as [Gh Gd].
+      apply (simple_legal p _ Hlp Hps His s t PAWN (at_ (brd p) s)); try reflexivity; try assumption.
+      * unfold PAWN. lia.
+      * left. auto.
+      * right. unfold enemy in Een. apply andb_true_iff in Een as [A B]. apply negb_true_iff, N.eqb_neq in A, B. auto.
+      * intros _. now apply Hlast.
+      * apply ep_none. rewrite make_ep_field. cbn [mfrom mto]. rewrite Gd. now rewrite andb_false_r.
+    + assert (Ht64 : t < 64) by now apply pawn_targets_lt in Ht. destruct (G3 t Ht) as [Gh Gd]. destruct (Hnp pr Hpr) as [Hn1 Hn2].
+      apply (simple_legal p _ Hlp Hps His s t PAWN (mk_piece (stm p) pr)); try reflexivity; try assumption.
+      * unfold PAWN. lia.
+      * right. cbn [mtype mprom]. auto.
+      * right. unfold enemy in Een. apply andb_true_iff in Een as [A B]. apply negb_true_iff, N.eqb_neq in A, B. auto.
+      * intros Hp. contradiction.
+      * apply ep_none. rewrite make_ep_field. cbn [mfrom mto]. rewrite Gd. now rewrite andb_false_r.
+    + now apply (ep_legal p _ Hlp His s t).
+  - apply castle_moves_in in Hm as (kf & kt & rf & bit & em & Hin & Hok & Em).
+    now apply (castle_legal p _ Hlp His kf kt rf bit em).
+Qed.
+
+Print Assumptions make_preserves_legal_pos.
